@@ -32,15 +32,18 @@ def fast_view() -> tuple:
     parts: list = [tuple(map(repr, reg.keys()))]
     for val in reg.values():
         if isinstance(val, list):
-            parts.append((tuple(map(id, val)), tuple(map(len, val))))
+            try:  # keys and values of every entry (C speed; str hashes are cached)
+                content = (tuple(map(hash, map(tuple, val))), tuple(map(hash, map(tuple, map(dict.values, val)))))
+            except TypeError:  # unhashable value somewhere: fall back to text
+                content = hash(repr(val))
+            parts.append((tuple(map(id, val)), tuple(map(len, val)), content))
         elif isinstance(val, dict):
             vals = val.values()
             first = next(iter(vals), None)
             if isinstance(first, list):
                 parts.append((tuple(val), tuple(map(len, vals)), tuple(map(id, chain.from_iterable(vals)))))
             else:
-                parts.append((tuple(val), tuple(map(id, vals)),
-                              tuple(tuple(v) if isinstance(v, dict) else repr(v) for v in vals)))
+                parts.append((tuple(val), tuple(map(id, vals)), hash(repr(val))))
         else:
             parts.append(repr(val))
     parts.append(tuple((k, id(v)) for k, v in checksum.algorithms.items()))
